@@ -399,7 +399,11 @@ func imageOrientation(_ *ComputedStyle, _ pr.KnownProp, _value pr.CssProperty) p
 		return _value
 	}
 	angle := value.Float
-	value.Float = pr.Fl(int(math.Round(float64(angle)/math.Pi*2)) % 4 * 90)
+	quarters := int(math.Round(float64(angle)/math.Pi*2)) % 4
+	if quarters < 0 { // Go's % keeps the sign of the dividend
+		quarters += 4
+	}
+	value.Float = pr.Fl(quarters * 90)
 	return value
 }
 
